@@ -175,7 +175,7 @@ theorem opRemove_refines_allow {o : Opts} {e : Bool} {r : Root} {op : Op} {sop :
     (hk : sop.kind = .remove) (hpath : sop.path = op.path) :
     OpRef e (Spec.applyOp (specOpts o) sz acc (den r.con) sop) (opRemove o r op) := by
   cases hp : Spec.parsePointer op.path with
-  | none => simp only [Spec.applyOp, hpath, hp, OpRef]
+  | none => simp only [Spec.applyOp, hpath, hp, hk, specOpts, ha, and_self, if_true, OpRef]
   | some toks =>
     cases toks with
     | nil => simp only [Spec.applyOp, hpath, hp, hk, OpRef]
